@@ -65,6 +65,25 @@ func (e *Engine) toJS(x *SExpr, subst map[string]*SExpr, depth int) *jsExpr {
 	return out
 }
 
+// streamDefsJSON: the derived-stream definitions in the form the harness interpreter evaluates
+func (e *Engine) streamDefsJSON() string {
+	type jsDef struct {
+		Params []string `json:"params"`
+		Idx    string   `json:"idx"`
+		Body   *jsExpr  `json:"body"`
+	}
+	out := map[string]jsDef{}
+	for _, d := range fileStreams {
+		var ps []string
+		for _, p := range d.Params {
+			ps = append(ps, p.name)
+		}
+		out[d.Name] = jsDef{Params: ps, Idx: d.Idx, Body: e.toJS(d.Body, nil, 0)}
+	}
+	b, _ := json.Marshal(out)
+	return string(b)
+}
+
 func substSExpr(x *SExpr, subst map[string]*SExpr) *SExpr {
 	if subst == nil {
 		return x
@@ -708,6 +727,8 @@ func zzCols(cs []*zzCollector) [][]float64 {
 
 const zzClauses = %s
 
+const zzStreamDefsJSON = %s
+
 func TestZZReplay(t *testing.T) {
 	var clauses []struct {
 		Kind, Label, Where, Text string
@@ -826,7 +847,7 @@ func zzClauseReq(x *zzExpr, env *zzEnv) string {
 	}
 	return zzClause(x, env)
 }
-`, "`"+strings.ReplaceAll(string(cj), "`", "'")+"`", goStrSlice(g.gridDoc), ncases, g.nGrid,
+`, "`"+strings.ReplaceAll(string(cj), "`", "'")+"`", "`"+strings.ReplaceAll(e.streamDefsJSON(), "`", "'")+"`", goStrSlice(g.gridDoc), ncases, g.nGrid,
 		strings.Join(pre, "\n\t\t\t"), strings.Join(inputsDoc, ", "), consts, strings.Join(filterEnvPre(envVars), ", "),
 		"", resAssign(resNames), callee, strings.Join(callArgs, ", "),
 		strings.Join(drains, "\n\t\t\t"), strings.Join(settleT, ", "), strings.Join(settleW, ", "),
